@@ -158,6 +158,9 @@ def run_sharded(base, constants, nshards, tag='gen', parallel=None, marker='@@CA
     with Workdir() as wd:
         def one(s):
             c = dict(constants)
+            if 'Seeds' in c:       # VERIF_SEED shifts the fill seeds of the generated operands
+                shift = int(os.environ.get('VERIF_SEED', '0') or 0) % 7
+                c['Seeds'] = {x + shift for x in c['Seeds']}
             c['Shard'] = s
             c['NShards'] = nshards
             name = 'MC_%s_%s%d' % (base, tag, s)
